@@ -327,6 +327,9 @@ def config_ops(cfg, c=0, seg=True):
         {'op': 'set_money_cfg', 'c': c, 'rm': cfg.get('mrm', False), 'round': cfg.get('mround', True)},
         {'op': 'set_timezone', 'c': c, 'tz': cfg.get('tz', 'UTC')},
     ]
+    if cfg.get('thou_first'):
+        # the same configuration reached by calling the two separator setters in the other order
+        ops[0], ops[1] = ops[1], ops[0]
     if seg:
         ops[0]['seg'] = True
     return ops
